@@ -141,6 +141,27 @@ theorem nack_on_publish_failure (c : Cfg) (s : Option Settle) (outs : List α) (
   rw [nack_iff, ack_iff]
   rcases hp with hp | hp <;> subst hp <;> simp [AckCond, hne]
 
+/-- **a Nack has one of the stated reasons**: with a real publisher and a chain that returned messages without an
+    error, the Router nacks only after it has offered exactly those messages to the publisher and that call failed or
+    panicked – never without asking the publisher -/
+theorem nack_only_after_asking_publisher (c : Cfg) (s : Option Settle) (outs : List α) (p : PubOutcome)
+    (hk : c.kind = .withPub) (hne : outs ≠ []) (h : .routerNack ∈ handle c ⟨s, .returns outs false⟩ p) :
+    .publishCall (pubTopic c) outs ∈ handle c ⟨s, .returns outs false⟩ p ∧
+    .publishRet p ∈ handle c ⟨s, .returns outs false⟩ p ∧ (p = .error ∨ p = .panic) := by
+  rcases c with ⟨k, t⟩
+  simp only at hk; subst hk
+  have hp : p = .error ∨ p = .panic := by
+    rw [nack_iff] at h
+    cases p
+    · exact absurd ⟨outs, rfl, Or.inr ⟨rfl, rfl⟩⟩ h
+    · exact Or.inl rfl
+    · exact Or.inr rfl
+  cases outs with
+  | nil => exact absurd rfl hne
+  | cons x xs =>
+    refine ⟨?_, ?_, hp⟩ <;>
+      rcases s with _ | _ | _ <;> cases p <;> simp [handle, selfEff, publishProduced, settleTail, effPub, pubTopic]
+
 /-- **outputs in a no-publisher handler are a failure**: `AddNoPublisherHandler` (disabledPublisher) and a nil
     publisher both lead to Nack as soon as the chain returns a message -/
 theorem nopub_outputs_nack (c : Cfg) (s : Option Settle) (outs : List α) (p : PubOutcome)
